@@ -21,7 +21,7 @@ ASSUMPTIONS = ["pixel (i,j) = [b0+i*ps, b0+(i+1)*ps] x [p0+j*ps, p0+(j+1)*ps] fr
                "mass by direct integration of the density: exact overlap (uniform), product of 1-D normal masses (axis-aligned), "
                "quad over the birth side of phi(x)*[conditional normal mass] (correlated, epsabs 1e-13); never bivariate-CDF inclusion-exclusion",
                "tolerance 1e-7*sum|w| (numerical-integration accuracy named by the statement)"]
-REQUIRED_NOTES = ["large-cases"]
+REQUIRED_NOTES = ["large-cases", "narrow-int-cases"]
 TECHNIQUE = "runtime monitoring: postcondition monitor on PersistenceImager.transform with a direct-integration pixel-mass oracle"
 
 
@@ -77,9 +77,38 @@ def large_case(ctx, k, rng):
     ctx.mark_nontrivial(geom, kdesc, len(bp), float(bp.sum()))
 
 
+def narrow_int_case(ctx, k, rng):
+    """diagrams in a narrow integer dtype with values over most of its range (8-bit / 16-bit filtration values): births and deaths
+    fit the dtype, death - birth need not"""
+    ia, fa, dn = vforms.near_limit_int_diagram(rng, int(rng.integers(1, 7)), dtypes=(np.int8, np.uint8, np.int16, np.uint16))
+    lo, hi = float(fa.min()), float(fa.max())
+    ps = (hi - lo) / float(rng.integers(4, 10))
+    geom = {"birth_range": (lo, hi), "pers_range": (0.0, hi - lo), "pixel_size": ps}
+    v = (ps * float(rng.choice([0.5, 1.0, 2.0]))) ** 2
+    kdesc = {"kind": "gaussian", "cov": [[v, 0.0], [0.0, v]]}
+    ctx.begin(k, "narrow-int/" + dn, {"ctor": {**geom, "sigma": v}, "diagram": ia, "dtype": dn})
+    ctx.note("narrow-int-cases")
+    try:
+        ctx.ran(2)
+        P = Imager(**geom, kernel_params={"sigma": v})
+        img = np.asarray(P.transform(ia, skew=True))
+        nb, npx = (int(x) for x in P.resolution)
+        bp = np.column_stack([fa[:, 0], fa[:, 1] - fa[:, 0]])
+        w = bp[:, 1].copy()
+        want = OI.expected_image_separable(bp, w, kdesc, {"b0": P.birth_range[0], "p0": P.pers_range[0], "ps": P.pixel_size, "nb": nb, "np": npx})
+        tol = 1e-7 * max(float(np.sum(np.abs(w))), 1e-300)
+        ok = img.shape == want.shape and bool(np.all(np.isfinite(img))) and float(np.abs(img - want).max()) <= tol
+        ctx.check("pixel == sum weight*mass [gaussian/isotropic]", ok, worst=float(np.abs(img - want).max()) if img.shape == want.shape else None,
+                  tol=tol, dtype=dn, total_got=float(img.sum()), total_want=float(want.sum()))
+    except Exception as e:
+        ctx.exception("transform returns", e, dtype=dn)
+
+
 def run_case(ctx, k, rng):
     if k % 53 == 9:
         return large_case(ctx, k, rng)
+    if k % 29 == 3:
+        return narrow_int_case(ctx, k, rng)
     geom = imgcfg.gen_geometry(rng)
     kkw, kdesc = imgcfg.gen_kernel(rng, geom["pixel_size"])
     wkw, wfun, nonneg = imgcfg.gen_weight(rng)
@@ -102,8 +131,7 @@ def run_case(ctx, k, rng):
     if skew:
         dgm[:, 1] = dgm[:, 0] + dgm[:, 1]
         bp = np.column_stack([dgm[:, 0], dgm[:, 1] - dgm[:, 0]])     # what a caller means by (birth, death)
-    arg = dgm.astype(np.int64) if integer else dgm
-    form = "int64" if integer else "float64"
+    arg, form = vforms.as_int_dtype(rng, dgm) if (integer and n) else (dgm, "float64")
     if not integer and n and rng.random() < 0.3:
         arg, form = vforms.relayout(rng, dgm)        # same values in another memory layout
     skew_arg = vforms.npflag(rng, skew)
